@@ -155,6 +155,9 @@ type OptV struct {
 
 type RTypeV struct{ Name string }
 
+// RValV stands for a reflect.Value wrapping an interface value.
+type RValV struct{ V IfaceV }
+
 type ErrV struct {
 	Msg   string
 	Wraps []Value // IfaceV error values wrapped with %w
